@@ -33,6 +33,38 @@ pub(crate) fn decompress(data: &[u8], expected_size: usize) -> Result<Vec<u8>> {
         &data[..std::cmp::min(16, data.len())]
     );
 
+    // Validate the 2-byte PKWARE DCL stream header before handing the data to the
+    // `implode` crate: its exploder stores the dictionary-size byte unchecked (any
+    // value outside 4..=6 overflows its shifts and back-reference arithmetic) and
+    // hits `unimplemented!()` for the ASCII literal mode.
+    if data.len() < 2 {
+        return Err(decompression_error(
+            "PKWare",
+            "input shorter than the 2-byte stream header",
+        ));
+    }
+    match data[0] {
+        0 => {}
+        1 => {
+            return Err(decompression_error(
+                "PKWare",
+                "ASCII literal mode is not supported by the decoder",
+            ));
+        }
+        other => {
+            return Err(decompression_error(
+                "PKWare",
+                format!("invalid literal mode {other} in stream header"),
+            ));
+        }
+    }
+    if !(4..=6).contains(&data[1]) {
+        return Err(decompression_error(
+            "PKWare",
+            format!("invalid dictionary size bits {} in stream header", data[1]),
+        ));
+    }
+
     // Use the implode crate for PKWare decompression in MPQ archives
     // Based on the working implementation in msierks/mpq-rust
     let mut exploder = Exploder::new(&DEFAULT_CODE_TABLE);
